@@ -6,7 +6,10 @@ use super::LuaDeclId;
 
 #[derive(Debug, Eq, PartialEq, Hash, Clone, Copy)]
 pub enum LuaScopeKind {
+    // chunk and blocks
     Normal,
+    // function ... end, from the parameter list on
+    Closure,
     Repeat,
     LocalOrAssignStat,
     ForRange,
